@@ -5,7 +5,7 @@
    (fix transactions on any lines, SaveAutofixChanges, the PLIST sorter, the
    executable-bit check) and collects the file operations [s_ops] (write of the
    temporary file, rename, chmod) and the printed AUTOFIX lines [s_log]. *)
-From PV Require Import Lib.Bytes Model.Autofix Proofs.Autofix Proofs.AutofixFs Gen.WriteSites.
+From PV Require Import Lib.Bytes Model.Autofix Proofs.Autofix Proofs.AutofixFs Proofs.AutofixCustom Gen.WriteSites.
 From Coq Require Import String.
 
 (* without --autofix the model performs no file operation, whatever the other
@@ -155,3 +155,14 @@ Example C02_printed_path_examples :
   denote [47;114]%N [99;47;112;47;46;46;47;111;47;46;46;47;46;46;47;100;47;118]%N
              = [[114]; [100]; [118]]%N%list.
 Proof. repeat split; vm_compute; reflexivity. Qed.
+
+(* mode changes are changes: every chmod the run performs (checkExecutable's Custom
+   fixer) has its printed "Clearing executable bits" line for that very file -- for all
+   histories and all option records with --autofix, in particular under --only *)
+Theorem C02_mode_change_implies_logged :
+  forall o keys evs st st',
+    o_autofix o = true -> fresh st -> run o keys evs st = Ok st' ->
+    forall p, In (OpChmod p) (s_ops st') ->
+      exists g, In g (s_log st') /\ g_file g = p /\ g_descr g = DChmod.
+Proof. exact mode_change_implies_logged. Qed.
+Print Assumptions C02_mode_change_implies_logged.
